@@ -98,6 +98,13 @@ where
         assert_eq!(res.n(), self.n() as u32);
         assert_eq!(sk.n(), self.n() as u32);
         assert_eq!(pt.n(), self.n() as u32);
+        assert_eq!(
+            pt.base2k(),
+            res.base2k(),
+            "pt.base2k(): {} != res.base2k(): {} (the plaintext limbs are added to the body as they are)",
+            pt.base2k(),
+            res.base2k()
+        );
         assert!(
             scratch.available() >= self.glwe_encrypt_sk_tmp_bytes(res),
             "scratch.available(): {} < GLWE::encrypt_sk_tmp_bytes: {}",
